@@ -66,7 +66,7 @@ func TestReplay(t *testing.T) {
 		mut = enumQuiet(rf.Check)
 	}
 	var baseDigest string
-	if rf.Enum && forced != nil {
+	if rf.Enum && forced != nil && rf.Check == "C06" {
 		baseDigest = RunOne(t, ReplayTape(rf.Choices), rf.Seed, RunOpts{Property: rf.Check, Mutate: mut}).Digest
 	}
 	run := func(ch []uint32, keep bool) *RunResult {
